@@ -573,10 +573,57 @@ class PendGen(histgen.HistGen):
     self.stats['rename-gone'] += 1
     return acts
 
+  SIDE_COL = 'sidefx'
+
+  def sideeffect_bundle(self, e):
+    """Formulas with a side effect that raise afterwards (the engine rolls the side effect back inside the bundle): first
+    such a column is added (it calls OTHER.lookupOrAddDerived and raises on even row ids); later bundles change what it
+    reads right after a doc action whose numbers of stored and undo actions differ."""
+    r = self.r
+    meta = histgen.Meta(e)
+    tabs = [t for t in meta.user_tables() if meta.rows(t['tableId'])]
+    have = [t for t in tabs if any(c['colId'] == self.SIDE_COL for c in meta.formula_cols(t['id']))]
+    if not have:
+      if len(tabs) < 2:
+        return None
+      t, o = r.sample(tabs, 2)
+      xs = [c for c in meta.data_cols(t['id']) if not c.get('formula')]
+      ks = [c for c in meta.data_cols(o['id']) if not c.get('formula') and c['type'] in ('Text', 'Any')]
+      if not xs or not ks:
+        return None
+      f = '%s.lookupOrAddDerived(%s=str($%s))\nif rec.id %% 2 == 0:\n  raise Exception("side")\nreturn 1\n' % (
+        o['tableId'], r.choice(ks)['colId'], r.choice(xs)['colId'])
+      self.pend(t['tableId'], self.SIDE_COL, 8)
+      return [['AddColumn', t['tableId'], self.SIDE_COL, {'type': 'Any', 'isFormula': True, 'formula': f}]]
+    t = r.choice(have)
+    tid = t['tableId']
+    col = next(c for c in meta.formula_cols(t['id']) if c['colId'] == self.SIDE_COL)
+    import re
+    m = re.search(r'str\(\$(\w+)\)', col['formula'])
+    x = next((c for c in meta.data_cols(t['id']) if m and c['colId'] == m.group(1)), None)
+    rows = [q for q in meta.rows(tid) if q % 2 == 0]
+    if x is None or not rows:
+      return None
+    others = [c for c in meta.data_cols(t['id']) if c is not x and not c.get('formula')]
+    first = []
+    k = r.choice(['rmcol', 'noopmod', 'rmmissing', 'none'])
+    if k == 'rmcol' and others:
+      first = [['RemoveColumn', tid, r.choice(others)['colId']]]
+    elif k == 'noopmod':
+      first = [['ModifyColumn', tid, x['colId'], {'type': x['type']}]]
+    elif k == 'rmmissing':
+      first = [['BulkRemoveRecord', tid, [max(meta.rows(tid)) + 5]]]
+    self.stats['sideeffect'] += 1
+    return first + [['UpdateRecord', tid, r.choice(rows), {x['colId']: self.value(x['type'], meta)}]]
+
   def bundle(self, e, max_len=3):
     r = self.r
     if self.directed and r.random() < 0.08:
       b = self.rename_gone_bundle(e)
+      if b:
+        return b
+    if self.directed and r.random() < 0.06:
+      b = self.sideeffect_bundle(e)
       if b:
         return b
     if r.random() < self.trig:
@@ -898,12 +945,62 @@ def typechange_search(prop, found, limit):
   return found
 
 
+_SIDE_FORMULA = 'Schools.lookupOrAddDerived(city=$city)\nif $amount < 0:\n  raise Exception("negative amount")\nreturn None\n'
+SIDE_DOC = [
+  [['AddTable', 'Address', [{'id': 'city', 'type': 'Text', 'isFormula': False}, {'id': 'state', 'type': 'Text', 'isFormula': False},
+                            {'id': 'amount', 'type': 'Numeric', 'isFormula': False}]]],
+  [['AddTable', 'Schools', [{'id': 'name', 'type': 'Text', 'isFormula': False}, {'id': 'city', 'type': 'Text', 'isFormula': False},
+                            {'id': 'ucity', 'type': 'Text', 'isFormula': True, 'formula': '$city.upper()'}]]],
+  [['BulkAddRecord', 'Schools', [None, None], {'name': ['MIT', 'NYU'], 'city': ['Boston', 'New York']}]],
+  [['BulkAddRecord', 'Address', [None, None], {'city': ['New York', 'Boston'], 'state': ['NY', 'MA'], 'amount': [1, 2]}]],
+  [['AddColumn', 'Address', 'A', {'type': 'Any', 'isFormula': True, 'formula': _SIDE_FORMULA}]],
+  [['AddTable', 'Extra', [{'id': 'X', 'type': 'Int', 'isFormula': False}]]],
+  [['AddRecord', 'Extra', None, {'X': 1}]],
+]
+
+
+def sideeffect_cases():
+  """A formula with a side effect (lookupOrAddDerived) that raises afterwards: the engine rolls the side effect back inside
+  the (successful) bundle, trimming stored / undo.  Placed after doc actions whose numbers of stored and undo actions
+  differ: RemoveColumn of a data column with values (1 stored, 2 undo), RemoveTable of a non-empty table (1 / 2), a
+  ModifyColumn that changes nothing and a BulkRemoveRecord of missing rows (1 / 0)."""
+  bad = ['UpdateRecord', 'Address', 2, {'city': 'Albany', 'amount': -3}]
+  firsts = [('RemoveColumn(data)', ['RemoveColumn', 'Address', 'state']), ('RemoveTable(non-empty)', ['RemoveTable', 'Extra']),
+            ('no-op ModifyColumn', ['ModifyColumn', 'Address', 'state', {'type': 'Text'}]),
+            ('BulkRemoveRecord of missing rows', ['BulkRemoveRecord', 'Extra', [7, 8]]),
+            ('AddRecord', ['AddRecord', 'Extra', None, {'X': 2}])]
+  out = [('rolled back alone', SIDE_DOC, [bad]),
+         ('side effect kept', SIDE_DOC, [['UpdateRecord', 'Address', 2, {'city': 'Albany', 'amount': 5}]])]
+  for n, a in firsts:
+    out.append((n + ', then rolled-back side effect', SIDE_DOC, [a, bad]))
+    out.append((n + ', rolled-back side effect, then an edit', SIDE_DOC, [a, bad, ['UpdateRecord', 'Schools', 1, {'name': 'M'}]]))
+  out.append(('two rollbacks after RemoveColumn', SIDE_DOC,
+              [['RemoveColumn', 'Address', 'state'], bad, ['UpdateRecord', 'Address', 1, {'city': 'Troy', 'amount': -1}]]))
+  return out
+
+
+def sideeffect_search(prop, found, limit):
+  for name, hist, b in sideeffect_cases():
+    try:
+      issues, _ = check_bundle(build(hist), copy.deepcopy(b))
+    except Exception:
+      continue
+    for p_, kind, what in issues:
+      if p_ == prop and not any(f[0] == kind for f in found):
+        found.append((kind, '[template: formula side effect rolled back inside the bundle; %s] %s' % (name, what),
+                      {'history': hist, 'bundle': b, 'kind': kind}))
+        if len(found) >= limit:
+          return found
+  return found
+
+
 def template_search(prop, limit=6):
   """Fixed templates, run on every check (a few seconds): counter trigger formulas read by a formula column, and -- without
   any preceding edit -- ReplaceTableData with overlapping / partial / disjoint ids and AddColumn-with-formula / update /
   (rename) / RemoveColumn bundles on the small documents of focused_search."""
   found = rename_gone_search(prop, [], limit)
   typechange_search(prop, found, limit)
+  sideeffect_search(prop, found, limit)
   for f in focused_search({'ReplaceTableData', 'RemoveColumn'}, prop, limit=limit, light=True):
     if len(found) < limit and not any(g[0] == f[0] for g in found):
       found.append(f)
